@@ -681,8 +681,8 @@ class Cell(Numbered_MCNP_Object):
 
         def cleanup_last_line(ret):
             last_line = ret.splitlines()[-1]
-            # check if adding to end of comment
-            if last_line.lower().startswith("c ") and last_line[-1] != "\n":
+            # check if adding to end of comment: a comment runs to the end of its line
+            if self._is_comment_line(last_line) or "$" in last_line:
                 return ret + "\n" + " " * BLANK_SPACE_CONTINUE
             if not last_line[-1].isspace():
                 return ret + " "
